@@ -159,11 +159,13 @@ fn g_formats_small(src: &mut Src, obs: &mut Obs) -> CaseResult {
 /// random lists up to 64 entries, alg over the whole i32 range, type strings up to 32 bytes,
 /// entry member order either way
 fn g_params_random(src: &mut Src, obs: &mut Obs) -> CaseResult {
-    let n = match src.below(6) {
+    let n = match src.below(7) {
         0 => src.range(0, 3),
         1 => 12,
         2 => 13,
         3 => 64,
+        // lists long enough for a counter of entries to leave 8 bits (still within one message)
+        4 => *src.pick(&[255usize, 256, 257, 300]),
         _ => src.range(0, 64),
     };
     let list = Value::Array(
@@ -187,6 +189,18 @@ fn g_params_random(src: &mut Src, obs: &mut Obs) -> CaseResult {
                 if src.chance(1, 4) {
                     e.reverse();
                 }
+                if src.chance(1, 6) {
+                    // an additional member the filter does not know, anywhere in the entry
+                    let key = *src.pick(&["vendor", "transports", "x", "algorithm", "typ"]);
+                    let val = match src.below(4) {
+                        0 => Value::Uint(1),
+                        1 => Value::text("usb"),
+                        2 => Value::Array(vec![Value::Uint(1), Value::Map(vec![])]),
+                        _ => Value::Bool(true),
+                    };
+                    let at = src.below(e.len() + 1);
+                    e.insert(at, ks(key, val));
+                }
                 Value::Map(e)
             })
             .collect(),
@@ -198,7 +212,14 @@ fn g_params_random(src: &mut Src, obs: &mut Obs) -> CaseResult {
 
 fn g_formats_random(src: &mut Src, obs: &mut Obs) -> CaseResult {
     let mut info = Info::default();
-    let list = gen_formats_list(src, &mut info, 40);
+    let list = if src.chance(1, 8) {
+        // long lists: mostly known formats, a few unknown ones in between
+        let n = *src.pick(&[255usize, 256, 257, 300, 600]);
+        let unknown_every = *src.pick(&[0usize, 7, 100]);
+        Value::Array((0..n).map(|i| if unknown_every != 0 && i % unknown_every == 3 { Value::text("tpm") } else { Value::text(if (i / 2) % 2 == 0 { "packed" } else { "none" }) }).collect())
+    } else {
+        gen_formats_list(src, &mut info, 40)
+    };
     obs.label("formats:random");
     check_formats_list(&list, obs)
 }
